@@ -6,6 +6,7 @@ import (
 	"fmt"
 	"go/constant"
 	"go/types"
+	"math"
 	"math/big"
 	"strings"
 
@@ -213,8 +214,17 @@ func (env *SpecEnv) lookupIdent(name string) (TV, bool) {
 	if tv, ok := env.bound[name]; ok {
 		return tv, true
 	}
-	if tv, ok := env.vars[name]; ok {
+	if tv, ok := env.vars[name]; ok && !(env.atExit && env.fr != nil && env.fr.hasLocalNamed(name)) {
+		// (in an internal clause a parameter name means the parameter variable's value at that exit; old(x) is
+		// its entry value)
 		return tv, true
+	}
+	if name == "receiver" && env.fr != nil && env.fr.fn.Signature.Recv() != nil && len(env.fr.fn.Params) > 0 {
+		// the method's receiver (entry value), for bodies that shadow the receiver's name with a local
+		p0 := env.fr.fn.Params[0]
+		if v, ok := env.fr.regs[p0]; ok {
+			return TV{v, p0.Type()}, true
+		}
 	}
 	if env.fr != nil {
 		fn := env.fr.fn
@@ -305,7 +315,13 @@ func (env *SpecEnv) objValue(obj types.Object) (TV, bool) {
 		case SStr:
 			return TV{&VS{vc.strLit(constant.StringVal(o.Val()))}, t}, true
 		case SReal:
-			return TV{&VS{realLit(constant.ToFloat(o.Val()))}, t}, true
+			// a Go float constant takes the value of its float64 rounding wherever the code uses it in a
+			// non-constant expression (0.40 is 3602879701896397/2^53, not 2/5); the spec sees that same value
+			fv := constant.ToFloat(o.Val())
+			if f64, _ := constant.Float64Val(fv); !math.IsInf(f64, 0) && !math.IsNaN(f64) {
+				fv = constant.MakeFloat64(f64)
+			}
+			return TV{&VS{realLit(fv)}, t}, true
 		}
 	case *types.Var:
 		if o.Pkg() == nil {
@@ -799,6 +815,7 @@ func (env *SpecEnv) evalCall(e *SExpr) TV {
 				env.fail("old() not available here")
 			}
 			sub := env.with(env.old)
+			sub.atExit = false // entry state: parameter names mean their entry values, no locals exist yet
 			return sub.eval(e.Args[0])
 		case "pre":
 			// pre(x.f): x evaluated in the current state, field f read in the old state
